@@ -654,14 +654,51 @@ fn stream_args(args: &[Sexp]) -> Result<Stream, String> {
 	}
 }
 
-/// the full reads of the stream, if every file reads completely and the stream holds nothing else
-fn full_reads(s: &Stream) -> Option<Vec<(usize, Vec<E>)>> {
-	let fulls: Vec<Cfg> = s.cfgs.iter().map(|_| Cfg::full()).collect();
+/// domain of the stream oracles, decided on the request alone: the bytes are class files laid back to back (independent
+/// framing `c17frame::frames`), every one of them well formed
+fn framed(bytes: &[u8]) -> Option<Vec<Frame>> {
+	let fs = c17frame::frames(bytes)?;
+	if fs.iter().all(well_formed) { Some(fs) } else { None }
+}
+
+/// the files the tree-building visitor accepts (`insert_if_empty` slots are filled once): decided on the framing —
+/// no attribute kind that goes into an `Option` slot twice on one item, at most one `Code` per method
+fn buildable(f: &Frame) -> bool {
+	use c17frame::{CAttr, MAttr};
+	fn once(ks: &[&str], single: &[&str]) -> bool { single.iter().all(|s| ks.iter().filter(|k| *k == s).count() <= 1) }
+	let class_ks: Vec<&str> = f.attrs.iter().filter_map(|a| match a { CAttr::Leaf(a) => Some(a.k), _ => None }).collect();
+	if !once(&class_ks, &["inner", "encl", "sig", "srcfile", "srcdbg", "module", "modpkgs", "modmain", "nesthost", "nestmem", "permitted"]) { return false; }
+	for a in &f.attrs {
+		if let CAttr::Record { comps, .. } = a {
+			for c in comps { if !once(&c.attrs.iter().map(|a| a.k).collect::<Vec<_>>(), &["sig"]) { return false; } }
+		}
+	}
+	for fl in &f.fields { if !once(&fl.attrs.iter().map(|a| a.k).collect::<Vec<_>>(), &["constval", "sig"]) { return false; } }
+	for m in &f.methods {
+		let ks: Vec<&str> = m.attrs.iter().map(|a| match a { MAttr::Leaf(a) => a.k, MAttr::Code(_) => "code" }).collect();
+		if !once(&ks, &["exc", "sig", "annodef", "mparams", "code"]) { return false; }
+	}
+	true
+}
+
+enum Full { OutOfDomain, Fail, Ok(Vec<Frame>, Vec<(usize, Vec<E>)>) }
+
+/// the frames of the stream and its full reads. The domain (well-formed files laid back to back, one configuration per
+/// file) is decided by the independent framing; on such a stream "a read consumes exactly the bytes of one class file" is
+/// unconditional, so a full read that errs or ends anywhere but at the end of its file is a failure, not out of domain
+fn full_reads(s: &Stream) -> Full {
+	let Some(fs) = framed(&s.bytes) else { return Full::OutOfDomain };
+	if fs.len() != s.cfgs.len() { return Full::OutOfDomain; }
+	let fulls: Vec<Cfg> = fs.iter().map(|_| Cfg::full()).collect();
 	let r = read_stream(&s.bytes, &fulls);
-	if r.len() != s.cfgs.len() { return None; }
-	let v: Vec<(usize, Vec<E>)> = r.into_iter().collect::<Result<_, _>>().ok()?;
-	if v.iter().map(|x| x.0).sum::<usize>() != s.bytes.len() { return None; }
-	Some(v)
+	if r.len() != fs.len() { return Full::Fail; }
+	let Ok(v) = r.into_iter().collect::<Result<Vec<(usize, Vec<E>)>, ()>>() else { return Full::Fail };
+	if v.iter().zip(&fs).any(|(x, f)| x.0 != f.size) { return Full::Fail; }
+	Full::Ok(fs, v)
+}
+
+macro_rules! full_or_return {
+	($s:expr) => { match full_reads($s) { Full::OutOfDomain => return Ans::out_of_domain(), Full::Fail => return Ans::fail("full-read"), Full::Ok(fs, v) => (fs, v) } };
 }
 
 fn exec(op: &str, args: &[Sexp]) -> Ans {
@@ -678,7 +715,7 @@ fn exec(op: &str, args: &[Sexp]) -> Ans {
 		}
 		"oracle-projection" => {
 			let s = match stream_args(args) { Ok(s) => s, Err(e) => return bad(e) };
-			let Some(full) = full_reads(&s) else { return Ans::out_of_domain() };
+			let (_fs, full) = full_or_return!(&s);
 			let masked = read_stream(&s.bytes, &s.cfgs);
 			if masked.len() != s.cfgs.len() { return Ans::fail("short"); }
 			for ((cfg, m), f) in s.cfgs.iter().zip(&masked).zip(&full) {
@@ -690,23 +727,26 @@ fn exec(op: &str, args: &[Sexp]) -> Ans {
 		}
 		"oracle-consumed" => {
 			let s = match stream_args(args) { Ok(s) => s, Err(e) => return bad(e) };
-			let Some(full) = full_reads(&s) else { return Ans::out_of_domain() };
+			// `consumed_mask_independent`: whatever is masked, skipped or declined, the read ends at the end of its file — the
+			// size the independent framing gives, not what another read of the implementation consumed
+			let (fs, _full) = full_or_return!(&s);
 			let masked = read_stream(&s.bytes, &s.cfgs);
 			if masked.len() != s.cfgs.len() { return Ans::fail("short"); }
-			for (m, f) in masked.iter().zip(&full) {
-				match m { Ok((n, _)) if *n == f.0 => {}, _ => return Ans::fail("consumed") }
+			for (m, f) in masked.iter().zip(&fs) {
+				match m { Ok((n, _)) if *n == f.size => {}, _ => return Ans::fail("consumed") }
 			}
 			Ans::pass()
 		}
 		"oracle-concat" => {
 			let s = match stream_args(args) { Ok(s) => s, Err(e) => return bad(e) };
-			let Some(full) = full_reads(&s) else { return Ans::out_of_domain() };
+			let (fs, _full) = full_or_return!(&s);
 			let masked = read_stream(&s.bytes, &s.cfgs);
 			if masked.len() != s.cfgs.len() { return Ans::fail("short"); }
 			let mut off = 0;
-			for ((cfg, m), f) in s.cfgs.iter().zip(&masked).zip(&full) {
-				let alone = read_stream(&s.bytes[off..off + f.0], std::slice::from_ref(cfg));
-				off += f.0;
+			for ((cfg, m), f) in s.cfgs.iter().zip(&masked).zip(&fs) {
+				// the file alone = the bytes the independent framing assigns to it
+				let alone = read_stream(&s.bytes[off..off + f.size], std::slice::from_ref(cfg));
+				off += f.size;
 				if alone.len() != 1 || &alone[0] != m { return Ans::fail("concat"); }
 			}
 			Ans::pass()
@@ -717,7 +757,7 @@ fn exec(op: &str, args: &[Sexp]) -> Ans {
 				_ => return bad("arity".into()),
 			};
 			let s1 = Stream { bytes: bytes.clone(), cfgs: vec![cfg.clone()] };
-			if full_reads(&s1).is_none() { return Ans::out_of_domain(); }
+			let (fs, _full) = full_or_return!(&s1);
 			let mut cfg2 = cfg.clone();
 			let pad = |v: &mut Vec<Option<Mask>>, j: usize| while v.len() <= j { v.push(Some(Mask::ALL)); };
 			let keep: Box<dyn Fn(&E) -> bool> = match what.as_str() {
@@ -735,7 +775,7 @@ fn exec(op: &str, args: &[Sexp]) -> Ans {
 			let a = read_stream(&bytes, &[cfg]);
 			let b = read_stream(&bytes, &[cfg2]);
 			match (a.first(), b.first()) {
-				(Some(Ok((n1, e1))), Some(Ok((n2, e2)))) if n1 == n2 => {
+				(Some(Ok((n1, e1))), Some(Ok((n2, e2)))) if n1 == n2 && *n1 == fs[0].size => {
 					let f1: Vec<&E> = e1.iter().filter(|e| keep(e)).collect();
 					let f2: Vec<&E> = e2.iter().filter(|e| keep(e)).collect();
 					if f1 == f2 { Ans::pass() } else { Ans::fail("decline") }
@@ -746,8 +786,10 @@ fn exec(op: &str, args: &[Sexp]) -> Ans {
 		"oracle-replay" => {
 			let bytes = match args { [b, _f] => match b.as_bytes() { Ok(b) => b, Err(e) => return bad(e) }, _ => return bad("arity".into()) };
 			let s1 = Stream { bytes: bytes.clone(), cfgs: vec![Cfg::full()] };
-			let Some(full) = full_reads(&s1) else { return Ans::out_of_domain() };
-			let class = match duke::read_class(&mut Cursor::new(&bytes)) { Ok(c) => c, Err(_) => return Ans::out_of_domain() };
+			let (fs, full) = full_or_return!(&s1);
+			// the tree builder's domain is decided on the framing; inside it a failing `read_class` is a failure
+			if !buildable(&fs[0]) { return Ans::out_of_domain(); }
+			let class = match duke::read_class(&mut Cursor::new(&bytes)) { Ok(c) => c, Err(_) => return Ans::fail("read-class") };
 			// replaying into the tree builder reproduces the class
 			match class.clone().accept(Vec::new()) {
 				// compared through Debug: `PartialEq` is not reflexive on NaN constants
@@ -784,8 +826,11 @@ fn exec(op: &str, args: &[Sexp]) -> Ans {
 			// the tree of the full read with a descriptor and a signature put into every local variable entry (the reader never
 			// builds such a tree, merging the two tables by hand does): replayed / masked replay = projection of the full replay
 			let (bytes, cfg) = match args { [b, _f, c] => match (b.as_bytes(), Cfg::parse(c)) { (Ok(b), Ok(c)) => (b, c), _ => return bad("args".into()) }, _ => return bad("arity".into()) };
-			if op == "oracle-replay-both" && full_reads(&Stream { bytes: bytes.clone(), cfgs: vec![cfg.clone()] }).is_none() { return Ans::out_of_domain(); }
-			let mut class = match duke::read_class(&mut Cursor::new(&bytes)) { Ok(c) => c, Err(_) => return if op == "replay-both" { Ans::err() } else { Ans::out_of_domain() } };
+			if op == "oracle-replay-both" {
+				let (fs, _full) = full_or_return!(&Stream { bytes: bytes.clone(), cfgs: vec![cfg.clone()] });
+				if !buildable(&fs[0]) { return Ans::out_of_domain(); }
+			}
+			let mut class = match duke::read_class(&mut Cursor::new(&bytes)) { Ok(c) => c, Err(_) => return if op == "replay-both" { Ans::err() } else { Ans::fail("read-class") } };
 			for m in class.methods.iter_mut() {
 				if let Some(lvs) = m.code.as_mut().and_then(|k| k.local_variables.as_mut()) {
 					for lv in lvs.iter_mut() {
@@ -804,8 +849,9 @@ fn exec(op: &str, args: &[Sexp]) -> Ans {
 		"oracle-replay-projection" | "oracle-replay-masked" | "oracle-replay-masked-full" | "oracle-replay-masked-nolocals" => {
 			let (bytes, cfg) = match args { [b, _f, c] => match (b.as_bytes(), Cfg::parse(c)) { (Ok(b), Ok(c)) => (b, c), _ => return bad("args".into()) }, _ => return bad("arity".into()) };
 			let s1 = Stream { bytes: bytes.clone(), cfgs: vec![cfg.clone()] };
-			if full_reads(&s1).is_none() { return Ans::out_of_domain(); }
-			let class = match duke::read_class(&mut Cursor::new(&bytes)) { Ok(c) => c, Err(_) => return Ans::out_of_domain() };
+			let (fs, _full) = full_or_return!(&s1);
+			if !buildable(&fs[0]) { return Ans::out_of_domain(); }
+			let class = match duke::read_class(&mut Cursor::new(&bytes)) { Ok(c) => c, Err(_) => return Ans::fail("read-class") };
 			if op == "oracle-replay-projection" {
 				let (Ok(full), Ok(masked)) = (replay(class.clone(), &Cfg::full()), replay(class, &cfg)) else { return Ans::fail("replay") };
 				let want: Vec<E> = full.iter().filter_map(|e| proj_a(&cfg, e)).collect();
